@@ -116,10 +116,19 @@ def run_core(pid, tier, seed, plan):
                                  "consts": {k: consts[k] for k in consts if k not in ("Mode",)}})
             continue
         cwd = os.path.join(wd, camp["name"])
-        gres, beh = tlc.gen_behaviours(consts, os.path.join(cwd, "gen"), camp.get("invariants", []),
-                                       workers=camp.get("workers", 12), timeout=camp.get("timeout", 900),
-                                       simulate=camp.get("simulate"), coverage=camp.get("coverage", False),
-                                       module=cplan.get("module", "MC_Core.tla"), const_keys=cplan.get("const_keys"))
+        if camp.get("generator"):
+            # seeded random driver: the cases come from a generator outside TLC (texts larger than the exhaustive
+            # bound); the expected answer and the verdict still come from the specification - TLC evaluates the
+            # module's operators on each recorded case in trace mode
+            beh = camp["generator"](seed, camp["budget"])
+            gres = {"generated": 0, "distinct": 0, "depth": 0, "wall_s": 0, "timeout": False, "violated": [],
+                    "errors": [], "rc": 0, "log": ""}
+        else:
+            gres, beh = tlc.gen_behaviours(consts, os.path.join(cwd, "gen"), camp.get("invariants", []),
+                                           workers=camp.get("workers", 12), timeout=camp.get("timeout", 900),
+                                           simulate=camp.get("simulate"), coverage=camp.get("coverage", False),
+                                           module=cplan.get("module", "MC_Core.tla"),
+                                           const_keys=cplan.get("const_keys"))
         if gres["violated"]:
             print("TOOL-ERROR: the model itself violates %s in campaign %s (see %s)" % (
                 gres["violated"], camp["name"], gres["log"]))
@@ -214,8 +223,10 @@ def run_core(pid, tier, seed, plan):
                             "failed_clauses": r["viol"], "drift": r["drift"]})
         campaigns_ev.append({"name": camp["name"], "tlc": {k: gres[k] for k in ("generated", "distinct", "depth",
                                                                                  "wall_s", "timeout")},
-                             "mode": "simulate" if camp.get("simulate") else "exhaustive",
-                             "behaviours": len(beh), "replayed": len(jobs), "tag_vectors": ntags,
+                             "mode": "random" if camp.get("generator") else
+                                     ("simulate" if camp.get("simulate") else "exhaustive"),
+                             "behaviours": len(beh), "behaviours_selected": len(sel), "replayed": len(jobs),
+                             "tag_vectors": ntags,
                              "consts": {k: consts[k] for k in consts if k not in ("Mode",)}})
     # vacuity guard: actions the plan is about must have been replayed at least once
     missing = [a for a in plan.get("expect_actions", {}).get(tier, plan.get("expect_actions", {}).get("any", []))
@@ -236,7 +247,9 @@ def run_core(pid, tier, seed, plan):
             "states": max(1, total["states"]), "transitions": max(1, total["transitions"]),
             "traces_validated_against_impl": total["validated"],
             "samples": samples[:6],
-            "exhaustive": all(c["mode"] == "exhaustive" and not c["tlc"]["timeout"] for c in campaigns_ev),
+            # TLC enumerated every campaign's bounded space completely AND every behaviour it emitted was replayed
+            "exhaustive": all(c["mode"] == "exhaustive" and not c["tlc"]["timeout"]
+                              and c.get("behaviours_selected", c["behaviours"]) >= c["behaviours"] for c in campaigns_ev),
             "evaluations": total["validated"],
             "distinct_nontrivial": total["tag_vectors_replayed"],
             "rule": plan.get("rule") or "behaviours are the action sequences TLC reaches (one per distinct model state after an "
